@@ -136,6 +136,8 @@ def run_job(job):
                 r = M.compare_list(m, outs["out"], check_sc=sc_ok)
         if r is not None:
             out["model_fail"] = ("hevc." + ("general " + cmd if cmd in ("convert", "demux", "remove") else cmd.split("-")[0]), r[0], r[1])
+    if job.get("model_only"):
+        return out
     if res.rc != 0:
         out["fail"] = ("exit status 0", res.brief())
         return out
@@ -280,11 +282,36 @@ def run(ctx):
                                     "nsc": nsc, "expected": F.ref_general(F.items_of(st), "convert", conv, drop=True),
                                     "mline": M.general_line("convert", F.items_of(st), conv, drop=True)})
 
+    # ---- corner shapes, model correspondence only (no statement of the property is attached to them):
+    #  (a) the very first NAL of the stream is a prefix SEI holding only the HDR10+ message: it is dropped and the NAL
+    #      behind it is not taken for the first NAL of the frame (3-byte start code under --start-code annex-b)
+    #  (b) a payload type above 255: hevc_parser 0.6.8 overflows its u8 (dev profile): the command fails
+    cjobs = []
+    for i in range(6 if quick else 30):
+        r = rng.fork("corner%d" % i)
+        specs = H.gen_structure(r, 2, poc_bits=8)
+        st = H.build_stream(r, H.Codec(ps), specs, r.shuffle(rpus)[:2], el="none", prefix_sei=(0, 0), suffix_sei=(0, 0), tz=0,
+                            sc="four", aud="none", eos="none", max_slices=1, pad=(2, 6), rich_filler=False)
+        if i % 3 == 2:
+            st.aus[0].nals.insert(0, H.Nal(H.sei_nal([(300, b"\x11\x22\x33"), H.hdr10plus_message(r, 24, "safe")]), "psei"))
+        else:
+            st.aus[0].nals.insert(0, H.Nal(H.sei_nal([H.other_message(r, "other")]), "psei"))
+            st.aus[0].nals.insert(0, H.Nal(H.sei_nal([H.hdr10plus_message(r, size=r.choice(HDR_SIZES), style="safe")]), "psei"))
+        for drop in (True, False):
+            c = {"cmd": "convert", "drop": drop, "chunk": r.choice([257, None]), "stdin": False, "start_code": "annex-b"}
+            cjobs.append({"cfg": c, "sid": 6000 + i, "st": st, "data": st.render(), "nhdr": 1, "model_only": True, "expected": {},
+                          "mline": M.general_line("convert", F.items_of(st), conv, start_code="annex-b", drop=drop,
+                                                  late=M.first_nal_late(st.render(), c["chunk"]))})
+
     with R.Work("C18") as work:
-        for j in jobs + tz_jobs:
+        for j in jobs + tz_jobs + cjobs:
             j["work"] = work
         ctx.count("cases through the Lean model (hevc.general / hevc.mux / hevc.inject with and without --drop-hdr10plus)",
-                  M.attach(jobs) + M.attach(tz_jobs))
+                  M.attach(jobs) + M.attach(tz_jobs) + M.attach(cjobs))
+        for o in R.pmap(run_job, cjobs):
+            ctx.evaluations += 1
+            ctx.count("class=corner (model only) %s" % ("model and CLI agree" if not o.get("model_fail") else "DISAGREE"))
+            _model_report(ctx, work, o["job"], o)
         sei_correspondence(ctx, all_sei)
         results = R.pmap(run_job, jobs)
         for k, o in enumerate(results):
